@@ -123,6 +123,27 @@ def download_nested(kind, size, thr, chunk, io, rc, iq, dn, p1, k1, b1, j1):
     return None
 
 
+def legacy_download(mode, nfaults, size, thr, chunk, a, f1, f2):
+    """C02.4: legacy S3Transfer.download_file (single GET re-opens the file per attempt; ranged path through
+    MultipartDownloader with a serial pool) with retryable stream faults at symbolic byte positions and a short read"""
+    from harness import legacy as L
+    script = [(f, True) for f in (f1, f2)[:nfaults]]
+    c = L.download(size, thr, chunk, stream_faults=script, attempts=3, short_reads=True, nd=(a,))
+    if c.outcome[0] != 'ok':
+        return 'download: legacy download failed although faults < attempts'
+    d = c.fs.files.get(H.DEST)
+    if d is None:
+        return 'download: legacy destination missing'
+    r = F.written_ok_seekable(d, size)
+    if r:
+        return 'download: legacy ' + r
+    if set(c.fs.files) != {H.DEST}:
+        return 'download: legacy temporary file left'
+    if sum(c.progress) < size:
+        return 'download: legacy progress callback saw fewer bytes than the object'
+    return None
+
+
 _PRE_SINGLE = ['0 <= size < thr', '1 <= io', 'size <= 3 * io', '1 <= chunk']
 _PRE_RANGED = ['1 <= thr <= size', '1 <= chunk', 'size <= 3 * chunk', '1 <= io', 'chunk <= 2 * io']
 _P = 'size: int, thr: int, chunk: int, io: int, a: int, b: int, f1: int, f2: int'
@@ -184,6 +205,19 @@ OBLIGATIONS = [
          encodes=['GetObjectTask', 'DownloadNonSeekableOutputManager.queue_file_io_task', 'DeferQueue',
                   'BoundedExecutor.submit (blocking)', 'IOWriteTask / IOStreamingWriteTask'],
          assumptions=['S1', 'S2', 'nested (LIFO) schedules only', 'model threading primitives']),
+    dict(id='C02.4', impl='legacy_download', params='size: int, thr: int, chunk: int, a: int, f1: int, f2: int',
+         cases=[('single', 1), ('ranged', 1)], cases_thorough=[('single', 2), ('ranged', 2)],
+         pre=['0 <= a <= 8192', '-1 <= f1 <= 16384', '-1 <= f2 <= 16384'],
+         splits=[['0 <= size < thr', 'size <= 8192', 'chunk == 1', 'f2 == -1'],
+                 ['1 <= thr <= size', '1 <= chunk <= 16384', 'chunk < size <= 2 * chunk', 'f2 == -1', 'f1 <= 2'],
+                 ['1 <= thr <= size', '1 <= chunk <= 16384', 'chunk < size <= 2 * chunk', 'f2 == -1', 'f1 > 2']],
+         splits_thorough=[['0 <= size < thr', 'size <= 8192', 'chunk == 1'],
+                          ['1 <= thr <= size', '1 <= chunk <= 16384', 'chunk < size <= 2 * chunk']],
+         timeout=(170, 1200),
+         bounds='legacy front end: single GET of <= 8 KiB, or 2 ranged parts of <= 16 KiB through a serial pool; one '
+                '(thorough two) retryable stream faults at symbolic positions of the first requests, one short read',
+         encodes=['S3Transfer.download_file', '_get_object', '_do_get_object', 'MultipartDownloader._download_range',
+                  '_perform_io_writes'], assumptions=['S1', 'S2', 'serial pool: no real thread interleaving']),
     dict(id='C02.2', impl='get_object_task', params='size: int, start: int, io: int, a: int, b: int, f1: int, f2: int',
          pre=['0 <= size', '0 <= start', '1 <= io', 'size <= 2 * io', '0 <= a <= io and 0 <= b <= io',
               '-1 <= f1 <= size', '-1 <= f2 <= size'],
